@@ -179,7 +179,7 @@ OrExpr:		UnaryExpr | OrExpr binop UnaryExpr | OrExpr '-' UnaryExpr ;
 UnaryExpr:	PathExpr | '-' UnaryExpr ;
 PathExpr:	LocationPath | FilterExpr | FilterExpr '/' RelativeLocationPath | FilterExpr DBLSLASH RelativeLocationPath ;
 FilterExpr:	PrimaryExpr | FilterExpr Predicate ;
-PrimaryExpr:	'(' Expr ')' | '(' ')' | LITERAL | NUM | FunctionCall | NODETYPE ;
+PrimaryExpr:	'(' Expr ')' | LITERAL | NUM | FunctionCall | NODETYPE ;
 FunctionCall:	func '(' ')' | func '(' Args ')' ;
 Args:		Expr | Args ',' Expr ;
 LocationPath:	RelativeLocationPath | AbsoluteLocationPath ;
@@ -198,7 +198,6 @@ Predicate:	'[' Expr ']' ;
 // document it):
 var xpSpecAdaptations = []struct{ what, why string }{
 	{"NODETYPE stands for NodeType '(' ')'", "the lexer delivers a node-type test such as node() as the single token NODETYPE (the parentheses are consumed by the lexer); the grammar reports it as unsupported. Because the lexer cannot tell a node test from a call, it is also accepted where a primary expression stands"},
-	{"PrimaryExpr → '(' ')'", "an empty parenthesis is accepted as a primary expression; it evaluates to nothing and is kept for compatibility with the original parser"},
 	{"func-class tokens", "FUNC, CURRENTFUNC, DEREFFUNC, COUNTFUNC and TEXTFUNC are all FunctionName tokens of XPath; current()/…, deref(…)/… and count(…)/… have the shape FilterExpr '/' RelativeLocationPath"},
 }
 
